@@ -6,8 +6,12 @@ ASSUMPTIONS = [
 ]
 
 ENGINES = [
-    dict(name="seqx", path="/verif/engine/seqx", serves_properties=[],
-         kind_free_text="exhaustive word / product enumeration over the real (sequential) code with reference-model oracles"),
+    dict(name="seqx", path="/verif/engine/seqx", serves_properties=["C01", "C02", "C10", "C11", "C12", "C13", "C14", "C15", "C20"],
+         kind_free_text="exhaustive word / product / choice-tree enumeration over the real (sequential) code with reference-model oracles; deviation-bounded DFS (seqx.Explore)"),
+    dict(name="lockx", path="/verif/engine/lockx", serves_properties=["C09", "C18"],
+         kind_free_text="CHESS-style cooperative scheduler over a shim of package sync (engine/vsync): Lock/Cond.Wait are scheduling points, iterative preemption bounding, deadlock and lost-wake-up detection"),
+    dict(name="reference models", path="/verif/engine", serves_properties=[],
+         kind_free_text="rdbgen/rdbcat (independent RDB writer + catalogue), crcref (bitwise CRCs, slot spec), respref (RESP recogniser), mredis (model Redis over RESP), memconn (in-memory net.Conn)"),
 ]
 
 NOT_APPLICABLE = {}
@@ -158,6 +162,22 @@ CHECKS = {
         note="the scheduler is sequentially consistent and switches only at Lock/Wait/thread end (sound for data-race-free code; races are the -race pass's job); file-backed pipes (4 MiB minimum) get a reduced set in thorough only",
         rule="execution = one schedule of one scenario (or one sequential word); states = distinct observable histories per scenario plus distinct sequential words; transitions = scheduling steps / operations; non-trivial = scenarios (each has conflicting operations by construction) and sequential words",
         parts=[dict(pkg="./pkg/libs/io/pipe", harness=["pipe"], test="^TestVerif_C09$", race_test="^TestVerif_C09Race$", race=True, race_shards=4, shards=16,
+                    gomaxprocs=1, budget=dict(quick=60, thorough=900))],
+    ),
+    "C18": dict(
+        level="model_checking",
+        engine="lockx+seqx",
+        technique="stateless model checking of the real backlog under a cooperative scheduler (Lock/Cond.Wait are scheduling points; all schedules up to the preemption bound) plus exhaustive sequential operation words against the full write log as reference",
+        text="backlog.go is compiled against the sync shim; for 8 scenarios (one writer, a following reader, a lagging reader about one capacity behind, "
+             "blocked readers, a closer) every schedule with at most 3 (thorough 5) preemptions runs on the real code. Oracle from the event log and the "
+             "position-coded write log: a successful read at offset o returns exactly log[o:o+n] with n>=1; invalid-offset only if o was outside "
+             "[wpos-cap, wpos] at some moment of the call; never a success for an offset outside the range during the whole call; blocked readers are woken "
+             "by every write and by close (lost wake-up invariant on the shim's wait queue, deadlock detection); DataRange/IsValid/NewReader agree with the "
+             "log. Sequentially all words up to length 5 (6) over writes of sizes up to 2cap+1, ReadAt/Seek at offsets around both ends of the data range, "
+             "reader operations and Close are checked after every step. Free-running -race pass of the same bodies.",
+        note="the scheduler is sequentially consistent and switches only at Lock/Wait/thread end; the custom close error is not required to be the one reported (the statement only asks for an error); file backend reduced, thorough only",
+        rule="execution = one schedule of one scenario or one sequential word; states = distinct observable histories per scenario plus distinct words; transitions = scheduling steps / operations; non-trivial = all",
+        parts=[dict(pkg="./pkg/libs/io/backlog", harness=["backlog"], test="^TestVerif_C18$", race_test="^TestVerif_C18Race$", race=True, race_shards=4, shards=16,
                     gomaxprocs=1, budget=dict(quick=60, thorough=900))],
     ),
 }
